@@ -24,13 +24,13 @@ const c16Parts = 16
 func (e *C16) ID() string    { return "C16" }
 func (e *C16) Level() string { return "exploration" }
 func (e *C16) Rule() string {
-	return "jobs, each split in 16 parts: (1) MessagePack on every generated type (MarshalMsg/UnmarshalMsg, EncodeMsg/DecodeMsg, Msgsize >= encoded length, no left-over bytes): all 2^8 / 2^16 values of the 8/16-bit types (ImageType, FlashMode, MeteringMode, ExposureMode, ExposureProgram, Flash, Orientation, Compression, ExposureBias, the eight Canon int16 enums), grids plus random bit patterns for the float32 types, Dimensions, Ahash, PHash64, PHash256, FocusDistance; (2) text and encoding/json (value alone and inside a struct) for ImageType, MeteringMode (text and JSON number), ExposureMode, ExposureProgram, ExposureBias (all 65536 encodings), Aperture, FocalLength, ExposureTime, UUID (canonical, hash-like, braced, URN forms x case), hash Encode/Decode with exact-size buffers, UUID binary; (3) totality: every decoder with an error result (text, JSON, binary, msgp) fed empty, one-byte, truncated-valid, mutated-valid and random input plus the strings m, /, 1/0, +, -/, mm. Oracle: Unmarshal(Marshal(v)) == v for valid v (documented enum members, numbers representable at the textual precision, every value for binary forms); Marshal(Unmarshal(Marshal(v))) == Marshal(v) for every v whose encoding the decoder accepts; no panic. Distinct = (type, form, encoded length and leading byte for MessagePack / text length and validity class for text), a measured count of distinct encodings shapes, plus one per job part."
+	return "jobs, each split in 16 parts: (1) MessagePack on every generated type (MarshalMsg/UnmarshalMsg, EncodeMsg/DecodeMsg, Msgsize >= encoded length, no left-over bytes): all 2^8 / 2^16 values of the 8/16-bit types (ImageType, FlashMode, MeteringMode, ExposureMode, ExposureProgram, Flash, Orientation, Compression, ExposureBias, the eight Canon int16 enums), grids plus random bit patterns for the float32 types, Dimensions, Ahash, PHash64, PHash256, FocusDistance; (2) text and encoding/json (value alone and inside a struct) for ImageType, MeteringMode (text and JSON number), ExposureMode, ExposureProgram, ExposureBias (all 65536 encodings), Aperture, FocalLength, ExposureTime, UUID (canonical, hash-like, braced, URN forms x case), hash Encode/Decode with exact-size buffers, UUID binary; (3) totality: every decoder with an error result (text, JSON, binary, msgp) fed empty, one-byte, truncated-valid, mutated-valid and random input plus the strings m, /, 1/0, +, -/, mm and numbers at the width boundaries of the integer types (255/256, 65535/65536/131072, 2^31, 2^32, 2^63, 2^64, 2^128) alone, as either half of a fraction, as decimals and with unit suffixes. Oracle: Unmarshal(Marshal(v)) == v for valid v (documented enum members, numbers representable at the textual precision, every value for binary forms); Marshal(Unmarshal(Marshal(v))) == Marshal(v) for every v whose encoding the decoder accepts; no panic. Distinct = (type, form, encoded length and leading byte for MessagePack / text length and validity class for text), a measured count of distinct encodings shapes, plus one per job part."
 }
 func (e *C16) Assumptions() []string {
 	return []string{"valid values: documented enum members; Aperture/FocalLength multiples of 0.01 below 10000; ExposureTime 1/n for integer n and x.xx >= 1; all 65536 ExposureBias encodings",
 		"hash Encode/Decode have no error result, so buffers shorter than the value are outside 'decoder returns a value or an error'"}
 }
-func (e *C16) Exhaustive(tier string) bool { return true }
+func (e *C16) Exhaustive(tier string) bool   { return true }
 func (e *C16) MinNontrivial(tier string) int { return 100 }
 
 type c16job struct {
@@ -118,6 +118,16 @@ func msgpTotal[T any, PT msgpPtr[T]](c *core.Ctx, typ string, in []byte) {
 func hostileInputs(r *core.Rng, valid [][]byte) [][]byte {
 	out := [][]byte{{}, {0}, {0xff}, []byte("m"), []byte("/"), []byte("1/0"), []byte("+"), []byte("-/"), []byte("mm"), []byte("0"), []byte("0/"), []byte("/0"), []byte("-"), []byte("+/"),
 		[]byte("1/"), []byte("null"), []byte("\"\""), []byte("\"m\""), []byte("\"1/0\""), []byte("{}"), []byte("[]"), []byte("-1"), []byte("1e400"), []byte("NaN"), []byte("0x10"), []byte(strings.Repeat("9", 400))}
+	// numbers at the width boundaries of the integer types, alone, as both halves of a fraction, as
+	// decimals and with the unit suffixes the text forms use
+	nums := []string{"0", "1", "127", "128", "255", "256", "32767", "32768", "65535", "65536", "65537", "131072", "2147483647", "2147483648", "4294967295", "4294967296", "4294967297",
+		"9223372036854775807", "9223372036854775808", "18446744073709551615", "18446744073709551616", "340282366920938463463374607431768211456"}
+	for i, a := range nums {
+		b := nums[(i*7+3)%len(nums)]
+		for _, f := range []string{a, a + "/" + b, b + "/" + a, "1/" + a, a + "/1", a + "." + b, "+" + a + "/" + b, "-" + a + "/" + b, a + "mm", a + ".00mm", "\"" + a + "/" + b + "\"", "\"1/" + a + "\"", a + "/" + a} {
+			out = append(out, []byte(f))
+		}
+	}
 	for _, v := range valid {
 		for k := 0; k <= len(v); k++ {
 			out = append(out, v[:k])
